@@ -19,11 +19,19 @@ Proof. intros [v] e H. cbn in H. subst v. destruct e; vm_compute; reflexivity. Q
 Lemma non_value_contained : forall q e, value_family e = false -> contained q e = true.
 Proof. intros [[|]] e H; destruct e; vm_compute in H |- *; congruence. Qed.
 
-Lemma worker_catches_all : forall e, dispatch worker_handlers e = Some HReturnEmpty.
-Proof. destruct e; vm_compute; reflexivity. Qed.
+Lemma escaping_is_value_family : forall q e, contained q e = false -> value_family e = true.
+Proof. intros q e H. destruct (value_family e) eqn:V; [reflexivity|]. rewrite (non_value_contained q e V) in H. discriminate. Qed.
 
-Lemma future_catches_all : forall e, dispatch future_handlers e = Some HReturnEmpty.
-Proof. destruct e; vm_compute; reflexivity. Qed.
+(* worker and future tables of the process pool: the ValueError family is re-raised by both, everything else is swallowed by the worker *)
+Lemma pool_reraises_value_family : forall e, value_family e = true ->
+  dispatch worker_handlers e = Some HReraise /\ dispatch future_handlers e = Some HReraise.
+Proof. destruct e; vm_compute; intros H; try discriminate H; split; reflexivity. Qed.
+
+Lemma pool_swallows_the_rest : forall e, value_family e = false -> dispatch worker_handlers e = Some HReturnEmpty.
+Proof. destruct e; vm_compute; intros H; try discriminate H; reflexivity. Qed.
+
+Lemma par_collects : par_parent_collects = true.
+Proof. reflexivity. Qed.
 
 (* the content readers turn an undecodable / unreadable file into "no content", never into a failure *)
 Lemma content_readers_catch :
@@ -418,63 +426,111 @@ Theorem crash_exit_is_2 e : exit_code (Crashed e) = 2.
 Proof. reflexivity. Qed.
 
 (* ------------------------------------------------------------------ the parallel path *)
-Lemma par_file_total q rules p : exists cs l, par_file q rules p = (Ok cs, l).
+Lemma par_file_contained q rules p :
+  (forall r e, In r rules -> r_res r p = Fail e -> contained q e = true) ->
+  par_file q rules p = (Ok (map (cell_of p) rules), flat_map (log_of p) rules).
+Proof. intros H. unfold par_file. rewrite (lint_file_contained q rules p H). reflexivity. Qed.
+
+Lemma par_all_contained q rules files :
+  all_contained q rules files -> par_all q rules files = (Ok (spec_cells rules files), spec_log rules files).
 Proof.
-  unfold par_file. destruct (lint_file q rules p) as [[cs|e] l]; [eauto|].
-  rewrite worker_catches_all. eauto.
+  induction files as [|p ps IH]; intros H; [reflexivity|].
+  cbn [par_all]. unfold spec_cells, spec_log. cbn [flat_map]. fold (spec_cells rules ps). fold (spec_log rules ps).
+  rewrite (par_file_contained q rules p) by (intros r e I E; apply (H r p e I); [left; reflexivity|exact E]).
+  rewrite IH by (intros r p' e I I' E; apply (H r p' e I); [right; exact I'|exact E]).
+  reflexivity.
 Qed.
 
-Definition pf (q : cquirks) (rules : list rule) (p : string) : list cell :=
-  match fst (par_file q rules p) with Ok cs => cs | Fail _ => [] end.
-
-Lemma par_all_flat q rules files : fst (par_all q rules files) = Ok (flat_map (pf q rules) files).
+(* an exception that escapes _safe_check_rule is re-raised by the worker and again when the future is read *)
+Lemma par_file_escape q rules p :
+  (exists r e, In r rules /\ r_res r p = Fail e /\ contained q e = false) ->
+  exists e' l, par_file q rules p = (Fail e', l).
 Proof.
-  induction files as [|p ps IH]; [reflexivity|].
-  cbn [par_all flat_map]. unfold pf at 1.
-  destruct (par_file_total q rules p) as (cs & l & P). rewrite P. cbn [fst].
-  destruct (par_all q rules ps) as [[cs'|e] l']; cbn [fst] in IH; [|discriminate].
-  injection IH as ->. reflexivity.
+  intros H. destruct (lint_file_escape q rules p H) as (e' & l & L).
+  destruct (lint_file_fail_cause q rules p e' l L) as (r & _ & _ & C).
+  destruct (pool_reraises_value_family e' (escaping_is_value_family q e' C)) as [W F].
+  exists e', l. unfold par_file. rewrite L, W, F. reflexivity.
 Qed.
 
-Lemma pf_paths q rules p : Forall (fun c => cell_path c = p) (pf q rules p).
+Lemma par_all_escape q rules files :
+  (exists r p e, In r rules /\ In p files /\ r_res r p = Fail e /\ contained q e = false) ->
+  exists e' l, par_all q rules files = (Fail e', l).
 Proof.
-  unfold pf, par_file. destruct (lint_file q rules p) as [[cs|e] l] eqn:L; cbn [fst].
-  - exact (lint_file_paths q rules p cs l L).
-  - rewrite worker_catches_all. cbn [fst]. apply Forall_forall. intros c I. apply in_map_iff in I.
-    destruct I as (r & <- & _). reflexivity.
+  induction files as [|p ps IH]; intros (r & p0 & e & I & Ip & E & C); [destruct Ip|].
+  cbn [par_all]. destruct (par_file q rules p) as [[cs|e1] l1] eqn:L; [|eauto].
+  destruct Ip as [<-|Ip].
+  - destruct (par_file_escape q rules p (ex_intro _ r (ex_intro _ e (conj I (conj E C))))) as (e' & l' & L').
+    rewrite L' in L. discriminate.
+  - destruct (IH (ex_intro _ r (ex_intro _ p0 (ex_intro _ e (conj I (conj Ip (conj E C))))))) as (e' & l' & L').
+    rewrite L'. eauto.
 Qed.
 
-(* In the parallel path isolation between FILES holds for every quirk vector, the faithful one included:
-   the worker's catch-all confines even an escaping exception to its own file ... *)
+Lemma wf_store_nil r files : r_cross r = false -> wf_rule r -> store_of r files = [].
+Proof.
+  intros X W. unfold store_of. induction files as [|p ps IH]; [reflexivity|].
+  cbn [map List.concat]. rewrite (W X p), IH. reflexivity.
+Qed.
+
+Lemma par_store_eq r files : wf_rule r -> par_store r files = store_of r files.
+Proof.
+  intros W. unfold par_store. rewrite par_collects. destruct (r_cross r) eqn:X; [reflexivity|].
+  cbn [andb]. symmetry. exact (wf_store_nil r files X W).
+Qed.
+
+Lemma all_contained_cross q rules files : all_contained q rules files -> all_contained q (filter r_cross rules) files.
+Proof. intros H r p e I. apply (H r p e). apply filter_In in I. tauto. Qed.
+
+(* With the parent re-running the cross-file rules, the parallel run is exact under the same conditions as the
+   sequential one: same cells, same cross-file findings. *)
+Theorem run_par_exact q rules files :
+  all_contained q rules files -> final_safe rules files -> (forall r, In r rules -> wf_rule r) ->
+  fst (run_par q rules files) = spec_run rules files.
+Proof.
+  intros C F W. unfold run_par. rewrite (par_all_contained q rules files C). rewrite par_collects.
+  rewrite (lint_all_contained q (filter r_cross rules) files (all_contained_cross q rules files C)).
+  rewrite (finalize_all_safe _ rules (fun r => par_store r files)).
+  - cbn [fst]. unfold spec_run, spec_fins, fins_of. f_equal. apply map_ext_in. intros r I.
+    rewrite (par_store_eq r files (W r I)). reflexivity.
+  - intros r I. rewrite (par_store_eq r files (W r I)). exact (F r I).
+Qed.
+
+(* every failing pair is logged by the worker, and once more by the parent for the cross-file rules *)
+Theorem run_par_log q rules files :
+  all_contained q rules files -> final_safe rules files -> (forall r, In r rules -> wf_rule r) ->
+  snd (run_par q rules files) = spec_log rules files ++ spec_log (filter r_cross rules) files.
+Proof.
+  intros C F W. unfold run_par. rewrite (par_all_contained q rules files C). rewrite par_collects.
+  rewrite (lint_all_contained q (filter r_cross rules) files (all_contained_cross q rules files C)).
+  rewrite (finalize_all_safe _ rules (fun r => par_store r files)).
+  - cbn [snd]. rewrite app_nil_r. reflexivity.
+  - intros r I. rewrite (par_store_eq r files (W r I)). exact (F r I).
+Qed.
+
 Theorem par_isolation q rules files (bad : string -> bool) :
+  all_contained q rules files ->
   exists cells cells',
     fst (par_all q rules files) = Ok cells /\
     fst (par_all q rules (filter (fun p => negb (bad p)) files)) = Ok cells' /\
     filter (fun c => negb (bad (cell_path c))) cells = cells'.
 Proof.
-  exists (flat_map (pf q rules) files), (flat_map (pf q rules) (filter (fun p => negb (bad p)) files)).
-  rewrite !par_all_flat. repeat split.
-  apply (filter_flat_map_paths (fun p => negb (bad p)) (pf q rules) files). intros p. apply pf_paths.
+  intros C. exists (spec_cells rules files), (spec_cells rules (filter (fun p => negb (bad p)) files)).
+  rewrite (par_all_contained q rules files C).
+  rewrite (par_all_contained q rules _ (all_contained_filter q rules files _ C)).
+  repeat split. apply (spec_cells_filter rules files (fun p => negb (bad p))).
 Qed.
-
-(* ... but at the price of every OTHER rule's findings for that file *)
-Theorem par_file_dropped q rules p :
-  (exists r e, In r rules /\ r_res r p = Fail e /\ contained q e = false) ->
-  pf q rules p = map (fun r => (p, r_id r, [])) rules.
-Proof.
-  intros H. destruct (lint_file_escape q rules p H) as (e' & l & L).
-  unfold pf, par_file. rewrite L, worker_catches_all. reflexivity.
-Qed.
-
-Theorem par_file_exact q rules p :
-  (forall r e, In r rules -> r_res r p = Fail e -> contained q e = true) ->
-  pf q rules p = map (cell_of p) rules.
-Proof. intros H. unfold pf, par_file. rewrite (lint_file_contained q rules p H). reflexivity. Qed.
 
 Theorem par_ideal_exact q rules files :
   q_value_error_escapes q = false -> fst (par_all q rules files) = Ok (spec_cells rules files).
 Proof.
-  intros H. rewrite par_all_flat. f_equal. unfold spec_cells.
-  induction files as [|p ps IH]; [reflexivity|]. cbn [flat_map]. rewrite IH. f_equal.
-  apply par_file_exact. intros r e _ _. apply ideal_contains_all. exact H.
+  intros H. rewrite (par_all_contained q rules files); [reflexivity|].
+  intros r p e _ _ _. apply ideal_contains_all. exact H.
+Qed.
+
+(* an escaping exception aborts the parallel run too (it is re-raised by the worker and by the future reader) *)
+Theorem par_escape_crashes q rules files :
+  (exists r p e, In r rules /\ In p files /\ r_res r p = Fail e /\ contained q e = false) ->
+  exists e', fst (run_par q rules files) = Crashed e'.
+Proof.
+  intros H. destruct (par_all_escape q rules files H) as (e' & l & L).
+  exists e'. unfold run_par. rewrite L. reflexivity.
 Qed.
